@@ -129,5 +129,23 @@ def ctlInit (zero ti tf dt : α) : Option (Ctl α) :=
   let d := if tf - ti < dt then tf - ti else dt
   if d < zero then none else some ⟨ti, d⟩
 
+/-- trace validation: may the loop-head state `s'` follow `s` after one pass through the body, for
+some outcome of the error test and some non-negative time multiplier? (`eq` is equality of scalars) -/
+def ctlStepOk (eq : α → α → Bool) (zero tf half : α) (s s' : Ctl α) : Bool :=
+  (eq s'.t (s.t + s.dt) || eq s'.t s.t) &&
+  (if s'.t < tf - half * s.dt then
+     !(decide (s'.dt < zero)) && !(decide (tf - s'.t < s'.dt)) && (!(eq s.dt zero) || eq s'.dt zero)
+   else eq s'.dt s.dt)
+
+/-- a recorded sequence of loop-head states followed by the final state is a terminated run of
+`ctlLoop`: the guard holds at every recorded head, fails at the final state, and consecutive states
+are related by `ctlStepOk` -/
+def ctlValid (eq : α → α → Bool) (zero tf half : α) : List (Ctl α) → Bool
+  | [] => false
+  | [s] => !(decide (s.t < tf - half * s.dt))
+  | s :: s' :: rest =>
+    decide (s.t < tf - half * s.dt) && ctlStepOk eq zero tf half s s' &&
+      ctlValid eq zero tf half (s' :: rest)
+
 end
 end TfelVerif.C12
